@@ -151,6 +151,14 @@ def run_case(case: Dict[str, Any], ctx) -> None:
                     return
                 ctx.violation(key(f"grad-nonfinite:{name}"), "library gradient non-finite, reference finite", cfg=cfg)
                 return
+        # a gradient that is MATHEMATICALLY zero (softmax under an upstream gradient that is constant along the softmax dim, the
+        # rms of a single element ...) comes out as rounding noise on both sides: nothing to fit. "Noise" = below 16 ulp of what the
+        # operands could produce, for the reference AND for the library.
+        floors = [16 * _EPS[case["dtype"]] * fr.upstream_max * fr.input_max for fr in (A, B, C)]
+        if all(float(fr.grads_r[name].abs().max() if fr.grads_r[name].numel() else 0.0) <= fl and
+               float(fr.grads_u[name].abs().max() if fr.grads_u[name].numel() else 0.0) <= fl for fr, fl in zip((A, B, C), floors)):
+            ctx.count("trivial:gradient-at-rounding-noise-level")
+            continue
         if any(b is None for b in bs):
             for (b, r, tag), fr in zip(zip(bs, rs, "ABC"), (A, B, C)):
                 # the reference gradient is identically zero (e.g. attention over a single key: softmax' = 0). "Zero" is judged at
